@@ -117,23 +117,19 @@ pub proof fn lemma_split_two(w: Seq<u8>, n: nat)
     }
 }
 
-// [props: C03 C15]
-/// an accepting verdict pins the shape of the line: `PROXY`, a separator, the protocol
-/// keyword, a separator, ..., CRLF, at most 107 bytes
-pub broadcast proof fn lemma_accept_shape(w: Seq<u8>)
-    ensures (#[trigger] line_verdict(w)) matches V1V::Accept(a) ==> v1_accept_shape(w, a)
+// [props: C03 C04 C15]
+/// the shape of an accepted line from what the parser has SEEN (independent of the verdict function, hence of the
+/// accepted language): first piece `PROXY`, a second piece equal to the protocol keyword of the addresses, CRLF at the end
+pub broadcast proof fn lemma_shape_from_parts(w: Seq<u8>, a: V1Addresses)
+    ensures
+        splitn_spec(w, 7).len() >= 2 && splitn_spec(w, 7)[0] =~= b_proxy() && splitn_spec(w, 7)[1] =~= v1_protocol_bytes(a)
+        && is_suffix_of(b_crlf(), w) ==> #[trigger] v1_accept_shape0(w, a)
 {
-    if let V1V::Accept(a) = line_verdict(w) {
-        let parts = splitn_spec(w, 7);
+    let parts = splitn_spec(w, 7);
+    if parts.len() >= 2 && parts[0] =~= b_proxy() && parts[1] =~= v1_protocol_bytes(a) && is_suffix_of(b_crlf(), w) {
         lemma_split_len(w, 7);
-        assert(parts[0] =~= b_proxy());
-        assert(parts.len() >= 2);
         lemma_split_two(w, 7);
         let p = v1_protocol_bytes(a);
-        assert(parts[1] =~= p);
-        assert(is_suffix_of(b_crlf(), w)) by {
-            if !(a is Unknown) { assert(tcp_tail_kind(w, parts) is None); }
-        }
         let n = w.len() as int;
         assert(w.subrange(n - 2, n)[0] == 13u8 && w.subrange(n - 2, n)[1] == 10u8);
         assert(w[n - 2] == 13u8 && w[n - 1] == 10u8);
@@ -156,6 +152,26 @@ pub broadcast proof fn lemma_accept_shape(w: Seq<u8>)
     }
 }
 
+// [props: C03 C15]
+/// an accepting verdict pins the shape of the line: `PROXY`, a separator, the protocol
+/// keyword, a separator, ..., CRLF, at most 107 bytes
+pub broadcast proof fn lemma_accept_shape(w: Seq<u8>)
+    ensures (#[trigger] line_verdict(w)) matches V1V::Accept(a) ==> v1_accept_shape(w, a)
+{
+    if let V1V::Accept(a) = line_verdict(w) {
+        let parts = splitn_spec(w, 7);
+        lemma_split_len(w, 7);
+        assert(parts[0] =~= b_proxy());
+        assert(parts.len() >= 2);
+        let p = v1_protocol_bytes(a);
+        assert(parts[1] =~= p);
+        assert(is_suffix_of(b_crlf(), w)) by {
+            if !(a is Unknown) { assert(tcp_tail_kind(w, parts) is None); }
+        }
+        lemma_shape_from_parts(w, a);
+    }
+}
+
 // [props: C15]
 /// for a window (CR only as its last-but-one byte) the separators inside the line are spaces
 pub proof fn lemma_window_separators(w: Seq<u8>, i: int)
@@ -166,4 +182,4 @@ pub proof fn lemma_window_separators(w: Seq<u8>, i: int)
     lemma_first_index_bounds(w, 13u8);
 }
 
-pub broadcast group v1_shape_lemmas { lemma_accept_shape }
+pub broadcast group v1_shape_lemmas { lemma_accept_shape, lemma_shape_from_parts }
